@@ -326,6 +326,10 @@ pub fn run(ctx: &Ctx) -> Finish {
                         // infinite objective values (an overflowing objective): still ordered, still selectable
                         let ext: Vec<(X, u8)> = samples.iter().map(|s| (X(if s.0 .0 == values[0] { f64::NEG_INFINITY } else if s.0 .0 == values[2] { f64::INFINITY } else { s.0 .0 }), s.1)).collect();
                         check_case(l, &Case::Best { samples: ext, sense, legacy, by_value: false, removed_how: 0 });
+                        // objective values closer together than machine epsilon are still different numbers
+                        let tiny = 2f64.powi(-60);
+                        let near: Vec<(X, u8)> = samples.iter().map(|s| (X(if s.0 .0 == values[0] { -tiny } else if s.0 .0 == values[2] { tiny } else { 0.0 }), s.1)).collect();
+                        check_case(l, &Case::Best { samples: near, sense, legacy, by_value: false, removed_how: 0 });
                     }
                 }
             }
@@ -374,7 +378,7 @@ pub fn run(ctx: &Ctx) -> Finish {
     ctx.assume("Legacy sample sets are produced by encoding a message whose tag 4 holds remaining-constraint feasibility, tag 6 all-constraint feasibility and tag 7 is absent (what releases before feasible_relaxed wrote) and decoding it with prost; the wire tags themselves are C07's subject.");
     Finish {
         level: "model_checking",
-        rule: "(a) every objective of the medium representation family x both senses through as_minimization_problem (once and twice): sense, objective == +-f as polynomials, all other fields untouched, idempotent, identical ranking of all pairs of grid states; (b) every sample set with k samples, each sample assigned one of 3 objective values (ties arise) and one of 3 feasibility classes, built by the real evaluate_samples, x both senses x {current, legacy} encodings (k <= 4 also with objective values -inf / +inf, and with the relaxed constraint carrying the empty reason, listed so or after a real relax_constraint(id, \"\")): returned id is feasible in the requested sense and unbeaten under the set's sense, Err iff no sample is feasible, feasible id sets and best Solutions agree; non-trivial = maximisation instance / at least two samples".into(),
+        rule: "(a) every objective of the medium representation family x both senses through as_minimization_problem (once and twice): sense, objective == +-f as polynomials, all other fields untouched, idempotent, identical ranking of all pairs of grid states; (b) every sample set with k samples, each sample assigned one of 3 objective values (ties arise) and one of 3 feasibility classes, built by the real evaluate_samples, x both senses x {current, legacy} encodings (k <= 4 also with objective values -inf / +inf, with objective values -2^-60 / 0 / 2^-60, and with the relaxed constraint carrying the empty reason, listed so or after a real relax_constraint(id, \"\")): returned id is feasible in the requested sense and unbeaten under the set's sense, Err iff no sample is feasible, feasible id sets and best Solutions agree; non-trivial = maximisation instance / at least two samples".into(),
         bounds: json!({"k_full": kmax, "k8": if t { "two objective values, all classes" } else { "structured" }, "objective_values": values, "classes": ["infeasible","remaining-only","all"]}),
         exhaustive: true,
     }
